@@ -647,9 +647,43 @@ func (c *dagCase) reachable() map[int]bool {
 	return m
 }
 
+// effectiveRoots: the order in which Load meets the roots.  The first root travels in the first chunk of
+// patterns, the others in a later one (see loadDags); inside a chunk `go list` prints packages in
+// dependency order, so among the later roots a dependency precedes its importers.
+func (c *dagCase) effectiveRoots() []int {
+	if len(c.Roots) == 0 {
+		return nil
+	}
+	out := []int{c.Roots[0]}
+	isRoot := map[int]bool{}
+	for _, r := range c.Roots[1:] {
+		isRoot[r] = true
+	}
+	seen := map[int]bool{}
+	var visit func(i int)
+	visit = func(i int) {
+		if seen[i] || i >= c.N {
+			return
+		}
+		seen[i] = true
+		if i < len(c.Edges) {
+			for _, j := range c.Edges[i] {
+				visit(j)
+			}
+		}
+		if isRoot[i] {
+			out = append(out, i)
+		}
+	}
+	for _, r := range c.Roots[1:] {
+		visit(r)
+	}
+	return out
+}
+
 func (c *dagCase) Line() string {
 	var roots, nodes []string
-	for _, r := range c.Roots {
+	for _, r := range c.effectiveRoots() {
 		roots = append(roots, hx(fmt.Sprintf("d%d", r)))
 	}
 	for i := range c.reachable() {
@@ -719,7 +753,17 @@ func (c *dagCase) eval(u *gengotypes.Universe, root, prefix string) {
 				}
 			}
 		}
-		out := strings.Join(parts, " ")
+		// packages some importer's table does not point to any more (registered a second time)
+		dup := map[string]bool{}
+		for _, i := range reach {
+			p := u.Package(prefix + fmt.Sprintf("/d%d", i))
+			for path, ip := range p.Imports() {
+				if strings.HasPrefix(path, prefix+"/") && ip != u.Package(path) {
+					dup[hx(strings.TrimPrefix(path, prefix+"/"))] = true
+				}
+			}
+		}
+		out := strings.Join(parts, " ") + " twice=" + strings.Join(sortedKeys(dup), ",")
 		if oracle != "" {
 			out += " ORACLE:" + oracle
 		}
@@ -735,7 +779,11 @@ func loadDags(cases []*dagCase) {
 	}
 	defer os.RemoveAll(root)
 	os.WriteFile(filepath.Join(root, "go.mod"), []byte("module "+batchMod+"\n\ngo 1.24\n"), 0o644)
-	var pats []string
+	// go/packages hands the patterns to `go list` in chunks of at most 16 383 characters and concatenates
+	// the roots of the chunks; inside one chunk roots come in dependency order, across chunks they do not.
+	// The first root of every graph goes into the first chunk, filler packages with long names fill it up,
+	// and the remaining roots follow: a root that an earlier root imports then arrives AFTER its importer.
+	var first, rest, fillers []string
 	for k, c := range cases {
 		prefix := fmt.Sprintf("%s/g%d", batchMod, k)
 		for name, content := range c.files(prefix) {
@@ -743,10 +791,25 @@ func loadDags(cases []*dagCase) {
 			os.MkdirAll(filepath.Dir(full), 0o755)
 			os.WriteFile(full, []byte(content), 0o644)
 		}
-		for _, r := range c.Roots {
-			pats = append(pats, fmt.Sprintf("./g%d/d%d", k, r))
+		for i, r := range c.Roots {
+			pat := fmt.Sprintf("./g%d/d%d", k, r)
+			if i == 0 {
+				first = append(first, pat)
+			} else {
+				rest = append(rest, pat)
+			}
 		}
 	}
+	if len(rest) > 0 {
+		long := strings.Repeat("x", 180)
+		for i := 0; i < 95; i++ {
+			d := fmt.Sprintf("filler/f%d_%s", i, long)
+			os.MkdirAll(filepath.Join(root, d), 0o755)
+			os.WriteFile(filepath.Join(root, d, "f.go"), []byte("package f\n"), 0o644)
+			fillers = append(fillers, "./"+d)
+		}
+	}
+	pats := append(append(first, fillers...), rest...)
 	old := os.Stdout
 	devnull, _ := os.OpenFile(os.DevNull, os.O_WRONLY, 0)
 	os.Stdout = devnull
